@@ -381,7 +381,17 @@ class TransitionDefinition:
         )
         self.event: str = event
         self.source: "StateNode" = source
-        self.target_str: Optional[str] = config.get("target")
+        target = config.get("target")
+        # 🛡️ A target names a state. Anything but a string was accepted here
+        #    and only failed when the transition was taken, as a raw TypeError
+        #    from the resolver inside `send()`.
+        if target is not None and not isinstance(target, str):
+            raise InvalidConfigError(
+                f"Transition for event '{event}' on state '{source.id}' has "
+                f"an invalid 'target' of type '{type(target).__name__}'. "
+                f"Expected a state reference string."
+            )
+        self.target_str: Optional[str] = target
         self.actions: List[ActionDefinition] = actions or []
 
         # 🛡️ Guard resolution.
